@@ -102,7 +102,8 @@ def rules(ctx, F):
             ctx.bad("R2", "ts_parser_parse:walk-starts-at-old-root", "ts_parser_parse no longer points the reusable-node walk at old_tree->root")
     fn = ctx.need_fn(F, "ts_subtree_edit", "R4")
     if fn:
-        mk = [pt for pt, e in fn.points() if e.get("k") == "decl" and e["name"] == "result"]
+        res = bind(fn, "result", "ts_subtree_make_mut(pool, *entry.tree)")
+        mk = [pt for pt, e in fn.points() if e.get("k") == "decl" and e["name"] == res]
         ctx.gate("R4", fn, mk, [("nodes lying entirely before the edit are left untouched (not cloned, not marked)", "edit.start.bytes > total_size.bytes + lookahead_bytes", False)],
                  accept_desc="making a node mutable")
         from cstores import stores
